@@ -150,11 +150,12 @@ impl AddrClass {
     }
 }
 
+/// node 0 = S (sender), 1 = R (receiver), 2 = T (a third node, "ingress" part only)
 pub fn ext_hw(node: usize) -> [u8; 8] {
-    if node == 0 {
-        [0x1a, 0x0b, 0x42, 0x42, 0x42, 0xa1, 0xb1, 0x01]
-    } else {
-        [0x1a, 0x0b, 0x42, 0x42, 0x42, 0xa2, 0xb2, 0x02]
+    match node {
+        0 => [0x1a, 0x0b, 0x42, 0x42, 0x42, 0xa1, 0xb1, 0x01],
+        1 => [0x1a, 0x0b, 0x42, 0x42, 0x42, 0xa2, 0xb2, 0x02],
+        _ => [0x1a, 0x0b, 0x42, 0x42, 0x42, 0xa3, 0xb3, 0x03],
     }
 }
 pub fn short_hw(node: usize) -> [u8; 2] {
@@ -251,6 +252,10 @@ pub struct WorldCfg {
     pub r_extra: Vec<AddrClass>,
     /// octet every transmit buffer is pre-filled with before smoltcp writes the frame
     pub fill: u8,
+    /// "ingress" part: every node also gets an ICMP socket and a large warm-up socket (to send
+    /// the stimulus), and S's raw socket watches ICMPv6 instead of UDP (a raw UDP socket would
+    /// suppress the port-unreachable reply)
+    pub stimulus_sockets: bool,
     pub r_any_ip: bool,
     /// multicast groups R joins
     pub r_join: Vec<Ipv6Address>,
@@ -378,7 +383,7 @@ impl Node {
         // everything off-link goes via the peer's LlHw address (so that mixed address classes can
         // talk in both directions); identical in both worlds
         let peer_hw = if node == 0 { cfg.r_hw } else { cfg.s_hw };
-        let _ = iface.routes_mut().add_default_ipv6_route(unicast_addr(1 - node, peer_hw, AddrClass::LlHw));
+        let _ = iface.routes_mut().add_default_ipv6_route(unicast_addr(if node == 0 { 1 } else { 0 }, peer_hw, AddrClass::LlHw));
         if cfg.med == Med::Lowpan {
             let _ = iface.sixlowpan_address_context_mut().push(SixlowpanAddressContext(CTX_PREFIX));
         }
@@ -392,10 +397,11 @@ impl Node {
         }
         let mut sockets = SocketSet::new(vec![]);
         let udp = sockets.add(udp_sock(8, 8192));
-        let mut w = udp_sock(4, 256);
+        let mut w = if cfg.stimulus_sockets { udp_sock(4, 4096) } else { udp_sock(4, 256) };
         w.bind(WARM_PORT).unwrap();
         let warm = sockets.add(w);
         let rproto = match cfg.proto {
+            Proto::Udp if cfg.stimulus_sockets && node == 0 => IpProtocol::Icmpv6,
             Proto::Udp => IpProtocol::Udp,
             Proto::Icmp => IpProtocol::Icmpv6,
             Proto::Tcp => IpProtocol::Tcp,
@@ -406,7 +412,7 @@ impl Node {
             raw::PacketBuffer::new(vec![raw::PacketMetadata::EMPTY; 32], vec![0u8; 16384]),
             raw::PacketBuffer::new(vec![raw::PacketMetadata::EMPTY; 1], vec![0u8; 16]),
         ));
-        let icmp = if cfg.proto == Proto::Icmp {
+        let icmp = if cfg.proto == Proto::Icmp || cfg.stimulus_sockets {
             let mut s = icmp::Socket::new(
                 icmp::PacketBuffer::new(vec![icmp::PacketMetadata::EMPTY; 4], vec![0u8; 4096]),
                 icmp::PacketBuffer::new(vec![icmp::PacketMetadata::EMPTY; 4], vec![0u8; 4096]),
@@ -485,10 +491,14 @@ pub struct World {
 
 impl World {
     pub fn new(cfg: &WorldCfg) -> World {
+        World::with_peer(cfg, 1)
+    }
+    /// S joined with node `peer` (1 = R, 2 = the third node T, configured like R)
+    pub fn with_peer(cfg: &WorldCfg, peer: usize) -> World {
         World {
             cfg: cfg.clone(),
             s: Node::new(0, cfg),
-            r: Node::new(1, cfg),
+            r: Node::new(peer, cfg),
             now: 1000,
             s2r: vec![],
             r2s: vec![],
